@@ -9,6 +9,7 @@ pub mod c11;
 pub mod c12;
 pub mod c13;
 pub mod c14;
+pub mod c15;
 pub mod c17;
 pub mod c18;
 
@@ -27,6 +28,7 @@ pub fn dispatch(p: &str, rep: &mut Report) -> bool {
         "C12" => c12::run(rep),
         "C13" => c13::run(rep),
         "C14" => c14::run(rep),
+        "C15" => c15::run(rep),
         "C17" => c17::run(rep),
         "C18" => c18::run(rep),
         _ => return false,
